@@ -50,4 +50,5 @@ WideTrichotomy == s = << >> => \A wa \in WideArgs, v \in WideTexts : (DecLess(v,
 Emit == /\ PrintT(<<"OUT", ToJson([in |-> s, row |-> Row, br |-> BrRow])>>)
         /\ (s = << >> => PrintT(<<"OUT", ToJson([cidr |-> CidrTable])>>))
         /\ (s = << >> => PrintT(<<"OUT", ToJson([wide |-> WideTable])>>))
+        /\ (s = << >> => PrintT(<<"OUT", ToJson([cap |-> CapTable])>>))
 =============================================================================
